@@ -40,6 +40,7 @@ func main() {
 	extractContainment()
 	extractArchiver()
 	extractPipeline()
+	extractRateProg()
 
 	all := map[string]any{}
 	var missing []string
